@@ -46,7 +46,7 @@ XfE(kind, items) ==
   IF items = <<>> THEN <<>>
   ELSE LET x == items[1]
            rest == XfE(kind, Tail(items))
-       IN CASE kind \in {"none", "identity", "create"} -> <<x>> \o rest   \* create: rebuilt with NewEntity, same content
+       IN CASE kind \in {"none", "identity", "create", "http", "httpctx"} -> <<x>> \o rest   \* create: rebuilt with NewEntity; http: an external service that echoes
             [] kind = "dup"                  -> <<x, x>> \o rest
             [] kind = "dropdel"              -> IF IsDel(x[2]) THEN rest ELSE <<x>> \o rest
 \* ... the others change the array they were handed IN PLACE and return it (push / unshift / pop); they are
@@ -189,7 +189,7 @@ ConvergeOnSuccess ==
      \A ji \in JobIdx :
        (hist'[Len(hist')].j = ji) =>
          LET j == JobSeq[ji]
-         IN (j.xf \in {"none", "identity", "create", "dup"} /\ hist'[Len(hist')].type = "fullsync" /\ ~j.lo) =>
+         IN (j.xf \in {"none", "identity", "create", "http", "httpctx", "dup"} /\ hist'[Len(hist')].type = "fullsync" /\ ~j.lo) =>
               \A x \in SrcLatest(j)' : ~IsDel(x[2]) => x \in Entities(j.sink)'
 Converges == [][ConvergeOnSuccess]_jvars
 
@@ -200,7 +200,7 @@ ConvergeAnyStep ==
      \A ji \in JobIdx :
        (hist'[Len(hist')].j = ji) =>
          LET j == JobSeq[ji]
-         IN j.xf \in {"none", "identity", "create"} => \A x \in SrcLatest(j)' : x \in Entities(j.sink)'
+         IN j.xf \in {"none", "identity", "create", "http", "httpctx"} => \A x \in SrcLatest(j)' : x \in Entities(j.sink)'
 ConvergesAny == [][ConvergeAnyStep]_jvars
 
 \* C08: the persisted token never points past data that was not written to the sink:
